@@ -153,8 +153,16 @@ def checksum_covers_field_metadata(A: Analysis, col: Collector, rule: str):
 def function_readset(A: Analysis, col: Collector, rule: str):
     fn = A.func(f"{HASH_MOD}.bytes_repr_function")
     col.scope(fn.qualname)
+    # the serializer and the helpers it uses: nested functions and module-level functions of the hash module
+    # it calls (the helpers may live in either place)
+    scope = [fn] + list(fn.nested.values())
+    for f in list(scope):
+        for c in A.calls(f):
+            for t in A.rs.resolve_call(c, f).repo_targets:
+                if isinstance(t, FuncInfo) and t.module.name == HASH_MOD and t not in scope and t.name != "hash_single" and not t.name.startswith("bytes_repr"):
+                    scope.append(t)
     names = set()
-    for f in [fn] + list(fn.nested.values()):
+    for f in scope:
         for n in walk_own(f.node):
             if isinstance(n, ast.Attribute):
                 names.add(n.attr)
@@ -166,7 +174,8 @@ def function_readset(A: Analysis, col: Collector, rule: str):
     else:
         col.fail(rule, fn.qualname, "function-source-not-hashed", "bytes_repr_function no longer reads the function source", A.loc(fn.node))
     # the body statements and the args node must both be dumped
-    dump_calls = [c for f in [fn] + list(fn.nested.values()) for c in A.calls(f) if isinstance(c.func, ast.Name) and c.func.id in fn.nested and c.args and any("ast.dump" in A.callee_names(k, fn.nested[c.func.id]) for k in A.calls(fn.nested[c.func.id]))]
+    dumpers = {g.name: g for g in scope if any("ast.dump" in A.callee_names(k, g) for k in A.calls(g))}
+    dump_calls = [c for f in scope for c in A.calls(f) if isinstance(c.func, ast.Name) and c.func.id in dumpers and c.args]
     dumps = [norm(c.args[0]) for c in dump_calls]
     body_dumped = False
     for c in dump_calls:
@@ -266,10 +275,15 @@ def first_yield_tags(A: Analysis, fn: FuncInfo) -> list[tuple[str, str, ast.AST]
             else:
                 out.append(("delegate", norm(v, 40), y))
             continue
-        # CacheKey(...) first chunk
+        # CacheKey(...) first chunk, built in place or by a helper of the module whose returns are all CacheKey(...)
         if isinstance(v, ast.Call) and (dotted(v.func) or "").endswith("CacheKey"):
             out.append(("key", "CacheKey", y))
             continue
+        if isinstance(v, ast.Call):
+            helpers = [t for t in A.rs.resolve_call(v, fn).repo_targets if isinstance(t, FuncInfo)]
+            if helpers and all(any(isinstance(r, ast.Return) for r in walk_own(h.node)) and all(isinstance(r.value, ast.Call) and (dotted(r.value.func) or "").endswith("CacheKey") for r in walk_own(h.node) if isinstance(r, ast.Return)) for h in helpers):
+                out.append(("key", "CacheKey", y))
+                continue
         base = v
         if isinstance(v, ast.Call) and isinstance(v.func, ast.Attribute) and v.func.attr == "encode":
             base = v.func.value
@@ -743,6 +757,16 @@ def file_key_rule(A: Analysis, col: Collector, rule: str):
     fn = A.func(f"{HASH_MOD}.bytes_repr_fileset")
     col.scope(fn.qualname)
     keys = [y for y in _yields(fn) if isinstance(y, ast.Yield) and isinstance(y.value, ast.Call) and (dotted(y.value.func) or "").endswith("CacheKey")]
+    if not keys:
+        # the key may be built by a helper of the module: analyse the helper's `return CacheKey(...)` instead
+        for y in _yields(fn):
+            if isinstance(y, ast.Yield) and isinstance(y.value, ast.Call):
+                for h in [t for t in A.rs.resolve_call(y.value, fn).repo_targets if isinstance(t, FuncInfo)]:
+                    rk = [r for r in walk_own(h.node) if isinstance(r, ast.Return) and isinstance(r.value, ast.Call) and (dotted(r.value.func) or "").endswith("CacheKey")]
+                    if rk:
+                        keys = rk
+                        fn = h
+                        col.scope(h.qualname)
     A.anchor("CacheKey yield in bytes_repr_fileset", keys)
     # only producer of tuple-first chunks
     producers = []
